@@ -351,10 +351,22 @@ def _post(c, p, patt, result, cols):
     )
 
 
+def _rows_shape(c, self, patt, result):
+    """a VIEW of the postcondition for callers that only walk over the rows: every row has the length of
+    the pattern, its entries are positions of patt, strictly increasing"""
+    n, N = c.len(self), c.len(patt)
+    return c.forall(0, c.len(result), lambda m: c.and_(
+        c.len(result[m]) == n,
+        c.forall(0, n, lambda j: c.and_(result[m][j] >= 0, result[m][j] < N), pattern=_pj(c, result[m])),
+        _incr(c, result[m], n)))
+
+
 @contract("Perm.occurrences_in", params={"self": "Perm", "patt": "Perm"}, returns="TupleList", props=P)
 class OccurrencesIn:
     def requires(c, self, patt):
         return c.and_(c.is_perm(self), c.is_perm(patt))
+
+    views = {"rows_shape": _rows_shape}
 
     def ensures(c, self, patt, result):
         return _post(c, self, patt, result, None)
